@@ -49,7 +49,7 @@ CHECKS = {
         "technique": "static analysis: value provenance through await/?/map_err, reachability from failure arms, move/ownership scan, zero-count who-may-call (forget/leak)",
     },
     "C09": {
-        "text": "With tokio's bounded-channel axiom the bound is the number given to mpsc::channel: decided that it is exactly the mailbox_capacity parameter (no arithmetic/max/constant), guarded by `> 0` with a panicking else edge, that spawn passes CONFIGURED.get().copied().unwrap_or(32) unchanged, that set_default_mailbox_capacity's full decision table is (0 => Err without write; n => OnceLock::set(n) decides) and nothing else writes the OnceLock, and that every enqueue (stop marker included) is a waiting send on that one channel; no unbounded channel.",
+        "text": "With tokio's bounded-channel axiom the bound is the number given to mpsc::channel: decided that it is exactly the mailbox_capacity parameter (no arithmetic/max/constant), guarded by `> 0` with a panicking else edge, that spawn passes CONFIGURED.get().copied().unwrap_or(32) unchanged, that set_default_mailbox_capacity's full decision table is (0 => Err without write; n => OnceLock::set(n) decides) and nothing else writes the OnceLock (the same obligations are decided when the configured default is kept in an atomic with a reserved 'unconfigured' value: initial value = marker = the value the validator rejects, claimed only by a strong compare_exchange(marker, n), read by one load), and that every enqueue (stop marker included) is a waiting send on that one channel; no unbounded channel.",
         "note": ASSUME % "T1, T7, T8",
         "technique": "static analysis: argument provenance, guard dominance, decision table of the validator, who-may-call",
     },
@@ -69,7 +69,7 @@ CHECKS = {
         "technique": "static analysis: who-may-call on the id counter static, field provenance of handle constructions, decision tables",
     },
     "C12": {
-        "text": "Isolation reduced to structure: lifecycle future directly into the single tokio::spawn, no catch_unwind, no hook on unwind paths, receivers owned by the task (pending/future senders fail). Global-state inventory: every static under every feature set is classified (atomic, OnceLock, task-local key, tracing metadata, wait-for map) - an unclassified static is reported. Lock discipline: within the live range of the wait-for MutexGuard in ask no panic entry/Assert/unwrap is reachable (crate-local callees transitively), the deliberate panic happens only after the guard was moved into mem::drop, and WaitForGuard::drop never unwraps the lock result - hence the mutex cannot be poisoned and a destructor cannot abort. Senders get error values, not panics: no panic entry / Assert / unwrap / expect reachable in the public delivery functions, their primitives and the dead-letter recorder (only the governed deadlock panic).",
+        "text": "Isolation reduced to structure: lifecycle future directly into the single tokio::spawn, no catch_unwind, no hook on unwind paths, receivers owned by the task (pending/future senders fail). Global-state inventory: every static under every feature set is classified (atomic, OnceLock, task-local key, tracing metadata, wait-for map) - an unclassified static is reported. Lock discipline: within the live range of the wait-for MutexGuard in ask no panic entry/Assert/unwrap is reachable (crate-local callees transitively), the deliberate panic happens only after the guard was moved into mem::drop, and WaitForGuard::drop never unwraps the lock result - hence the mutex cannot be poisoned and a destructor cannot abort. Dead-letter accounting: every failing delivery branch has exactly one record call with the reason of that failure (C13 pairing rule re-evaluated). Senders get error values, not panics: no panic entry / Assert / unwrap / expect reachable in the public delivery functions, their primitives and the dead-letter recorder (only the governed deadlock panic).",
         "note": ASSUME % "T6, T7, T8, T9",
         "technique": "static analysis: statics inventory, guard live-range computation + panic-site scan with bounded inlining, who-may-call",
     },
@@ -89,7 +89,7 @@ CHECKS = {
         "technique": "static analysis: forwarder check (resolved callee + argument provenance + wrapper chain) over impl items",
     },
     "C17": {
-        "text": "Sibling agreement of blocking_*_no_timeout with tell/ask on a behavioural descriptor (envelope shape, single waiting enqueue, error variant x failure condition x dead-letter reason, downcast target); C01/C03/C13 rules evaluated on the blocking bodies; dispatch None/Some(d) decided by guard + argument provenance; helper closure builds a current-thread runtime with the timer enabled, block_on's the timeout wrapper (C10 shape) and sends the result back; the caller returns rx.recv() (dead helper => Err); runtime entry only inside closures passed to std::thread::spawn; deprecated aliases forward with constant None. Not decided: wall-clock bound (thread scheduling).",
+        "text": "Sibling agreement of blocking_*_no_timeout with tell/ask on a behavioural descriptor (envelope shape, single waiting enqueue, error variant x failure condition x dead-letter reason, downcast target); C01/C03/C13 rules evaluated on the blocking bodies; dispatch None/Some(d) decided by guard + argument provenance; helper closure builds a current-thread runtime with the timer enabled, block_on's the timeout wrapper (C10 shape; only the elapsed timer becomes Error::Timeout, any other outcome of the wrapped operation is passed on unchanged) and sends the result back; the caller returns rx.recv() (dead helper => Err); runtime entry only inside closures passed to std::thread::spawn; deprecated aliases forward with constant None. Not decided: wall-clock bound (thread scheduling).",
         "note": ASSUME % "T1, T3, T5, T6, T8",
         "technique": "static analysis: sibling cross-check of send-path descriptors, who-may-call on runtime entry points, provenance",
     },
